@@ -42,7 +42,7 @@ fn img(prog: usize, n: usize) -> Img {
 /// Holder action before a step: 0 none, 1 hold keyboard, 2 hold display, 3 hold keyboard and append a byte on release, 4 hold display and drain it on release
 type Sched = Vec<(u32, u8)>;
 
-struct Obs { received: Vec<u8>, output_expected: Vec<u8>, shown: Vec<u8>, sent: Vec<u8>, steps: usize, halted: bool, stale: u64, dropped: u64 }
+struct Obs { received: Vec<u8>, output_expected: Vec<u8>, shown: Vec<u8>, sent: Vec<u8>, steps: usize, halted: bool, stale: u64, dropped: u64, unwaited: (u64, u64) }
 
 fn machine(prog: usize, init: &[u8], total: usize) -> (Machine, u16) {
     let im = img(prog, total);
@@ -78,7 +78,7 @@ fn run_boundary(prog: usize, init: &[u8], sched: &Sched) -> Result<Obs, (String,
     let received: Vec<u8> = (0..n_recv).map(|i| p.sim.mem[buf + i as u16].get() as u8).collect();
     let mut shown = drained; shown.extend(p.disp.get_buffer().read().unwrap().iter());
     let output_expected = expected_output(prog, &received);
-    Ok(Obs { received, output_expected, shown, sent, steps, halted, stale: p.rf.stale_kbdr_reads, dropped: p.rf.dropped_ddr_writes })
+    Ok(Obs { received, output_expected, shown, sent, steps, halted, stale: p.rf.stale_kbdr_reads, dropped: p.rf.dropped_ddr_writes, unwaited: (p.rf.unwaited_stale_kbdr_reads, p.rf.unwaited_dropped_ddr_writes) })
 }
 
 /// What the program outputs given what it received: programs 0 and 2 echo every byte, program 1 PUTSes its buffer (stops at a zero), program 3 prints ABC.
@@ -105,6 +105,10 @@ fn judge(prog: usize, o: &Obs, what: &str, coincided_kb: bool, coincided_disp: b
 fn check_boundary(prog: usize, init: &[u8], sched: &Sched) -> Result<(usize, Vec<&'static str>), (String, String)> {
     let o = run_boundary(prog, init, sched)?;
     let what = format!("program {prog} input {init:x?} schedule {sched:?}");
+    // a data access under a held lock that was NOT preceded by a successful readiness poll is not one of the listed findings:
+    // the routine did not wait for KBSR/DSR for this byte
+    if o.unwaited.1 > 0 && o.shown != o.output_expected { return Err(("output-lost:DDR-written-without-waiting-for-DSR".into(), format!("{what}: display shows {:x?}, program output {:x?}; {} DDR write(s) were made under a held display lock without a preceding ready DSR poll", o.shown, o.output_expected, o.unwaited.1))); }
+    if o.unwaited.0 > 0 && o.received != o.sent { return Err(("input-wrong:KBDR-read-without-waiting-for-KBSR".into(), format!("{what}: received {:x?}, queued {:x?}; {} KBDR read(s) were made under a held keyboard lock without a preceding ready KBSR poll", o.received, o.sent, o.unwaited.0))); }
     let k = judge(prog, &o, &what, o.stale > 0, o.dropped > 0)?;
     Ok((o.steps, k))
 }
@@ -159,7 +163,7 @@ fn run_attempts(prog: usize, init: &[u8], held: &[u32]) -> Result<(Obs, bool, bo
     let received: Vec<u8> = (0..total.min(8)).map(|i| p.sim.mem[buf + i as u16].get() as u8).collect();
     let shown: Vec<u8> = p.disp.get_buffer().read().unwrap().clone();
     let output_expected = expected_output(prog, &received);
-    Ok((Obs { received, output_expected, shown, sent: init.to_vec(), steps, halted, stale: 0, dropped: 0 }, coincided_kb, coincided_disp, attempts))
+    Ok((Obs { received, output_expected, shown, sent: init.to_vec(), steps, halted, stale: 0, dropped: 0, unwaited: (0, 0) }, coincided_kb, coincided_disp, attempts))
 }
 fn classify(p: &Pair, w: u16) -> (bool, bool) {
     use crate::refs::isa::{decode, reg, RI};
